@@ -105,6 +105,15 @@ def goodbye(ctx: Any) -> List[Ob]:
     gsb = zc.methods['generate_service_broadcast']
     call = [c for c in walk_local_ordered(gsb.node) if isinstance(c, ast.Call) and call_name(c) == '_add_broadcast_answer']
     obs.append(ob(R, gsb, call[0] if call else '_add_broadcast_answer', 'the TTL and address choice reach the record builders', len(call) == 1 and [norm(a) for a in call[0].args[1:]] == gsb.params[1:4]))
+    # `removes the service from the registry`: whatever description object the caller passes, a registered name is taken out of
+    # the service table and both indexes (the removal table of C03.INDEX) -- else the host keeps answering for a service it has
+    # just said goodbye for
+    from .c03 import index as _c03_index
+
+    for o in _c03_index.fn(ctx):
+        if str(o.construct).startswith('removal of a name that is') or 'un-index a service is read from the registered entry' in o.statement:
+            o.rule = R
+            obs.append(o)
     # what is purged from the outgoing queues is what is said goodbye to: the address / NSEC records join the withdrawn set under
     # the very condition that puts them into the goodbye
     if bc and len(bc[0].args) == 4:
